@@ -33,6 +33,12 @@ def hy(t):
         return "`" + hy(t[1])
     if k == "q":
         return "'" + hy(t[1])
+    if k == "uqt":
+        return "~" + hy(t[1])
+    if k == "uqst":
+        return "~@" + hy(t[1])
+    if k == "sp":      # an operator written out, in any spelling that mangles to the same name: (unquote_splice ys)
+        return "(" + t[1] + " " + (t[2] if isinstance(t[2], str) else hy(t[2])) + ")"
     raise ValueError(t)
 
 
@@ -61,6 +67,20 @@ def reference(t, env, level=0):
         return [("expr", [("sym", "quasiquote")] + reference(t[1], env, level + 1))]
     if k == "q":
         return [("expr", [("sym", "quote")] + reference(t[1], env, level))]
+    if k in ("uqt", "uqst"):
+        # an unquote whose operand is itself a template: only generated below a deeper quasiquote (level > 0),
+        # where it lowers the level by one for its operand and otherwise stays literal
+        assert level > 0
+        return [("expr", [("sym", "unquote" if k == "uqt" else "unquote-splice")] + reference(t[1], env, level - 1))]
+    if k == "sp":
+        op = t[1].replace("_", "-")
+        if op == "quasiquote":
+            return [("expr", [("sym", t[1])] + reference(t[2], env, level + 1))]
+        if level == 0:
+            return reference(("uq" if op == "unquote" else "uqs", t[2]), env, 0)
+        if isinstance(t[2], str):
+            return [("expr", [("sym", t[1]), ("sym", t[2])])]
+        return [("expr", [("sym", t[1])] + reference(t[2], env, level - 1))]
     raise ValueError(t)
 
 
@@ -178,6 +198,26 @@ def templates(tier):
             out.append((kind, [("sym", "h"), ("qq", (kind, list(items))), ("uq", "x")]))
             out.append((kind, [("q", (kind, list(items))), ("uqs", "zs")]))
             out.append((kind, [("qq", ("list", [("qq", (kind, list(items)))])), ("uq", "y")]))
+    # the same subform at two different quasiquote levels in one template, in both orders; unquotes whose operand
+    # holds further unquotes (level arithmetic: ~ and ~@ lower the level for their operand)
+    subs = [("expr", [("sym", "g"), ("uq", "x")]), ("list", [("uqs", "ys"), ("sym", "b")]), ("expr", [("sym", "g"), ("uqs", "ys"), ("uq", "y")])]
+    for S in subs:
+        out.append(("list", [("qq", S), S]))
+        out.append(("list", [S, ("qq", S)]))
+        out.append(("expr", [("sym", "h"), ("qq", ("expr", [("sym", "k"), S])), S, ("qq", S)]))
+        out.append(("list", [("qq", ("list", [("uqt", S), S])), S]))
+        out.append(("list", [S, ("qq", ("list", [S, ("uqt", S)]))]))
+        out.append(("expr", [("sym", "h"), ("qq", ("expr", [("sym", "k"), ("uqst", S)]))]))
+        out.append(("list", [("qq", ("list", [("qq", S), ("uqt", ("list", [("qq", S), S]))]))]))
+    out.append(("list", [("qq", ("list", [("uqt", ("uq", "x")), ("uqt", ("sym", "x")), ("uq", "x")]))]))
+    out.append(("list", [("qq", ("list", [("uqst", ("uq", "ys")), ("uqt", ("uqs", "ys"))]))]))
+    # operators written out, in every spelling that mangles to the operator's name
+    for un in ("unquote",):
+        for us in ("unquote-splice", "unquote_splice"):
+            for qs in ("quasiquote",):
+                out.append(("list", [("sym", "a"), ("sp", us, "ys"), ("sp", un, "x")]))
+                out.append(("expr", [("sym", "a"), ("sp", qs, ("expr", [("sym", "b"), ("sp", us, ("expr", [("sym", "c"), ("uq", "x")]))]))]))
+                out.append(("expr", [("sym", "a"), ("sp", qs, ("list", [("sp", un, ("sp", us, "ys")), ("sp", us, "zs")])), ("sp", us, "zs")]))
     return out
 
 
